@@ -264,7 +264,8 @@ C03_Unplaced(i, o) ==
 (* known) that do not alone exceed a limit together are more than a whole shard may hold, and one of them fits on        *)
 (* another shard as reported, then the cycle moves something away from s.                                               *)
 PlainWorld(i) ==
-  /\ \A k \in Sh(i) : i.shards[k].mode = "ok"
+  /\ i.failScale = 0              \* (a failing scale request can end the cycle before anything is planned)
+  /\ \A k \in Sh(i) : i.shards[k].mode = "ok" /\ ~i.shards[k].postFail
   /\ ~("noAlleviate" \in DOMAIN i.opts /\ i.opts.noAlleviate)
   /\ \A k \in Sh(i) : \A r \in RepRecs(i, k) :
         /\ r.t \in ActiveSet(i) /\ r.state = ""
